@@ -219,59 +219,7 @@ func ruleReceiveOrder(c *Ctx, r *Report) {
 		}
 		return false
 	}
-	// a function that marks numbers it takes from the connection's own record of what it has
-	// accepted (the imported receive position), not from a received header
-	marksOwnRecord := func(fn *ssa.Function) bool {
-		if fn == nil {
-			return false
-		}
-		n := 0
-		for _, b := range fn.Blocks {
-			for _, in := range b.Instrs {
-				cl, ok := in.(*ssa.Call)
-				if !ok || !cl.Call.IsInvoke() || cl.Call.Method.Name() != "Check" || len(cl.Call.Args) != 1 {
-					continue
-				}
-				n++
-				fromState := true
-				seen := map[ssa.Value]bool{}
-				var visit func(v ssa.Value, d int)
-				visit = func(v ssa.Value, d int) {
-					if v == nil || seen[v] || d > 10 {
-						return
-					}
-					seen[v] = true
-					switch x := stripConv(v).(type) {
-					case *ssa.Const:
-					case *ssa.Phi:
-						for _, e := range x.Edges {
-							visit(e, d+1)
-						}
-					case *ssa.BinOp:
-						visit(x.X, d+1)
-						visit(x.Y, d+1)
-					case *ssa.Call:
-						if calleeName(&x.Call) == "sync/atomic.LoadUint64" && len(x.Call.Args) == 1 {
-							if ia, ok := x.Call.Args[0].(*ssa.IndexAddr); ok && addrIntoField(ia, tCom, "RemoteSequenceNumber") {
-								return
-							}
-						}
-						fromState = false
-					default:
-						if _, f, _, ok := fieldLoad(stripConv(v)); ok && f == "replayProtectionWindow" {
-							return
-						}
-						fromState = false
-					}
-				}
-				visit(cl.Call.Args[0], 0)
-				if !fromState {
-					return false
-				}
-			}
-		}
-		return n > 0
-	}
+	marksOwnRecord := c.marksOwnRecord
 	var names []string
 	for n := range cons {
 		names = append(names, n)
@@ -1535,4 +1483,58 @@ func failStateOK(ret *ssa.Return) bool {
 		}
 	}
 	return false
+}
+
+// marksOwnRecord: a function that marks numbers it takes from the connection's own record of what it has
+// accepted (the imported receive position), not from a received header
+func (c *Ctx) marksOwnRecord(fn *ssa.Function) bool {
+	if fn == nil {
+		return false
+	}
+	n := 0
+	for _, b := range fn.Blocks {
+		for _, in := range b.Instrs {
+			cl, ok := in.(*ssa.Call)
+			if !ok || !cl.Call.IsInvoke() || cl.Call.Method.Name() != "Check" || len(cl.Call.Args) != 1 {
+				continue
+			}
+			n++
+			fromState := true
+			seen := map[ssa.Value]bool{}
+			var visit func(v ssa.Value, d int)
+			visit = func(v ssa.Value, d int) {
+				if v == nil || seen[v] || d > 10 {
+					return
+				}
+				seen[v] = true
+				switch x := stripConv(v).(type) {
+				case *ssa.Const:
+				case *ssa.Phi:
+					for _, e := range x.Edges {
+						visit(e, d+1)
+					}
+				case *ssa.BinOp:
+					visit(x.X, d+1)
+					visit(x.Y, d+1)
+				case *ssa.Call:
+					if calleeName(&x.Call) == "sync/atomic.LoadUint64" && len(x.Call.Args) == 1 {
+						if ia, ok := x.Call.Args[0].(*ssa.IndexAddr); ok && addrIntoField(ia, tCom, "RemoteSequenceNumber") {
+							return
+						}
+					}
+					fromState = false
+				default:
+					if _, f, _, ok := fieldLoad(stripConv(v)); ok && f == "replayProtectionWindow" {
+						return
+					}
+					fromState = false
+				}
+			}
+			visit(cl.Call.Args[0], 0)
+			if !fromState {
+				return false
+			}
+		}
+	}
+	return n > 0
 }
